@@ -396,6 +396,13 @@ pub fn run(ctx: &Ctx) -> Report {
             let mut r = Report::new();
             let mut buf = Vec::new();
             for seed in c.iter() {
+                // degenerate and narrow offset intervals (two-sided interpolation formulas fail on a few percent of states)
+                for (min, max) in [(0.3f32, 0.3f32), (100.0, 100.5), (-7.1, -7.1), (0.1, 0.1000001)] {
+                    r.transitions += 1;
+                    if let Some((k, w)) = guard(|| check_generate(*seed, min, max)).unwrap_or_else(|e| Some(("C18 generate panics".into(), e))) {
+                        r.violate(k, w, &Kv::new().put("op", "generate").put("seed", *seed).put("min", min).put("max", max));
+                    }
+                }
                 for len in 3..=8usize {
                     r.transitions += 1;
                     let res = guard(|| check_shuffle(*seed, len, &mut buf)).unwrap_or_else(|e| {
